@@ -230,7 +230,9 @@ func (r *grammarOptimizer) optimizeRules(exprs []Expression) []Expression {
 func (r *grammarOptimizer) optimizeRule(expr Expression) Expression {
 	// Optimize RuleRefExpr
 	if ruleRef, ok := expr.(*RuleRefExpr); ok {
-		if _, ok := r.ruleUsesRules[ruleRef.Name.Val]; !ok {
+		// a reference to an undefined rule is left alone (the generated parser reports it)
+		_, defined := r.rules[ruleRef.Name.Val]
+		if _, ok := r.ruleUsesRules[ruleRef.Name.Val]; !ok && defined {
 			r.optimized = true
 			delete(r.ruleUsedByRules[ruleRef.Name.Val], r.rule)
 			if len(r.ruleUsedByRules[ruleRef.Name.Val]) == 0 {
@@ -240,7 +242,6 @@ func (r *grammarOptimizer) optimizeRule(expr Expression) Expression {
 			if len(r.ruleUsesRules[r.rule]) == 0 {
 				delete(r.ruleUsesRules, r.rule)
 			}
-			// TODO: Check if reference exists, otherwise raise an error, which reference is missing!
 			return cloneExpr(r.rules[ruleRef.Name.Val].Expr)
 		}
 	}
@@ -333,6 +334,13 @@ func cloneExpr(expr Expression) Expression {
 		return &OneOrMoreExpr{
 			Expr: cloneExpr(expr.Expr),
 			p:    expr.p,
+		}
+	case *RecoveryExpr:
+		return &RecoveryExpr{
+			Expr:        cloneExpr(expr.Expr),
+			RecoverExpr: cloneExpr(expr.RecoverExpr),
+			Labels:      append([]FailureLabel{}, expr.Labels...),
+			p:           expr.p,
 		}
 	case *SeqExpr:
 		exprs := make([]Expression, 0, len(expr.Exprs))
